@@ -154,6 +154,12 @@ func checkC09(c *Ctx) {
 	c09SignedBytes(c)
 	c09BitStrings(c)
 	c09HashSelection(c)
+	c09SubjectBytes(c)
+	for _, fn := range []string{"Sm2Verify", "Verify"} {
+		if f := c.Fn("sm2", fn); f != nil {
+			c01Verify(c, f) // r, s outside [1, n-1] rejected: otherwise (r, s+n) is a second valid signature value (rule of C01)
+		}
+	}
 	if n := pointWidth(c, "P-WIDTH-point", []string{"x509", "sm2"}); n > 0 {
 		c.Holds("P-WIDTH-point", "x509, sm2", "no point is encoded as 0x04 || X.Bytes() || Y.Bytes()", fmt.Sprintf("%d append chains inspected", n), token.NoPos)
 	}
@@ -966,4 +972,31 @@ func c09HashSelection(c *Ctx) {
 		}
 	}
 	c.Check(found, rule, fname(f), "the digest hash is taken from the requested algorithm's table row", "", "no value of the returned hash function comes from the `hash` field of a signatureAlgorithmDetails row: a requested SignatureAlgorithm changes the announced OID but the bytes are digested with the key type's default hash, so every object issued with a non-default algorithm fails verification", f.Pos())
+}
+
+// c09SubjectBytes: the issuer name written into an issued certificate is the parent's subject AS ENCODED (RawSubject)
+// whenever the parent carries one — a name re-encoded from the parsed pkix.Name drops attributes pkix.Name does not
+// model and splits multi-valued RDNs, so the child's issuer would no longer equal the CA's subject and chain building
+// fails. Decided on values: with len(cert.RawSubject) >= 1 every reachable return of subjectBytes yields cert.RawSubject.
+func c09SubjectBytes(c *Ctx) {
+	rule := "G-C09-signedbytes"
+	f := c.Fn("x509", "subjectBytes")
+	if f == nil {
+		c.Undecided(rule, "x509.subjectBytes", "issuer/subject bytes", "function not found", token.NoPos)
+		return
+	}
+	ci := newCondIndex(f, paramNames(f, "cert"))
+	bad := token.NoPos
+	n := 0
+	ci.withInterval("len(cert.RawSubject)", 1, 0, func() {
+		for b := range reach([]*ssa.BasicBlock{f.Blocks[0]}, deadEdges(f)) {
+			if ret, ok := b.Instrs[len(b.Instrs)-1].(*ssa.Return); ok && len(ret.Results) >= 1 {
+				n++
+				if ci.be.plain(ret.Results[0], ret).String() != "cert.RawSubject" {
+					bad = ret.Pos()
+				}
+			}
+		}
+	})
+	c.Check(n > 0 && bad == token.NoPos, rule, fname(f), "a certificate that carries RawSubject contributes exactly those bytes", "", "with a non-empty RawSubject the function can return something else (a re-encoding of the parsed name): the issuer field of issued certificates no longer equals the CA's encoded subject", bad)
 }
